@@ -26,6 +26,15 @@ open Cose.Go Cose.Key Cose.Msg
 theorem panic_sites_accounted :
     Cose.Gen.PanicSites.panicSites = Cose.Spec.PanicSites.expectedPanicSites := by decide +kernel
 
+/-- **bounded work per input** (the part of "time and memory proportional to the input" that is configuration): the shared
+    decoder keeps fxamacker's default limits — the options literal in `key/cbor.go` sets nothing but duplicate-key
+    enforcement and the ban on indefinite lengths, so nesting stays at 32 levels and arrays / maps at 131072 entries
+    (the model's `maxNesting`, `maxElems`; checked against the library at the limit by the `cbor` family).  Raising
+    `MaxNestedLevels` makes `Recipient.UnmarshalCBOR`, which re-decodes each nesting level, quadratic. -/
+theorem decoder_limits_are_defaults :
+    (Cose.Gen.Layouts.cborOptions.lookup "decOpts").map (fun o => o.map (·.1)) = some ["DupMapKey", "IndefLength"] ∧
+    Cose.Cbor.maxNesting = 32 ∧ Cose.Cbor.maxElems = 131072 := by decide +kernel
+
 /-- typed accessors never panic (a nil value is an error since the D5 fix) -/
 theorem accessors_never_panic (v : Option GoVal) :
     (getInt v).isPanic = false ∧ (getInt64 v).isPanic = false ∧ (getUint64 v).isPanic = false ∧
